@@ -157,6 +157,10 @@ def run(ctx, rep):
     rep.check(ok, 'R-C07-6', 'state_check_process: created-but-unfinished files are removed after bail (every exit path)', cleanup[0].loc() if cleanup else c.file, '', function='state_check_process', construct='cleanup created')
     rule_created_reset(P, rep, 'R-C07-6c')
     rule_finished_only_processed(P, rep, 'R-C07-6f')
+    # resumability also rests on the content replacement protocol (a stale .tmp of a killed save must not block the next save): rule shared with C09
+    from .C09 import rule_save_protocol
+    rep.rule('R-C09-6', 'save protocol ordering: write->flush->fsync->close->verify->rename, stale temporaries removed, all failures fatal (shared with C09)', 20)
+    rule_save_protocol(ctx, rep)
     # resumability after a kill rests on which hashes survive in the content: shared with C05/C06
     from .C05 import hash_provenance_rules
     from .C06 import blk_value
